@@ -395,13 +395,157 @@ Proof.
 Qed.
 
 Lemma admin_lemma w o :
-  apply_update w o = None ->
+  apply_update w o = None -> (forall d, o <> SetDMX d) ->
   snd (step w o) = [] /\ u_buf (w_u (fst (step w o))) = u_buf (w_u w).
 Proof.
-  intros H. unfold step. rewrite H. cbn [fst snd]. split; [reflexivity|].
-  destruct o; cbn [admin_step]; try reflexivity.
+  intros H Hd. unfold step. rewrite H.
+  destruct o; try (exfalso; eapply Hd; reflexivity); cbn [fst snd]; (split; [reflexivity|]);
+    cbn [admin_step]; try reflexivity.
   destruct (SOURCE_PRIORITY_MAX <? p); reflexivity.
 Qed.
+
+(* Universe::SetDMX: a non-empty frame is stored as is (capped at 512 slots) and handed out with the
+   active priority left by the last merge; an empty one is ignored *)
+Lemma setdmx_lemma w d :
+  (dmx_set d = [] -> step w (SetDMX d) = (w, [])) /\
+  (dmx_set d <> [] ->
+   u_buf (w_u (fst (step w (SetDMX d)))) = dmx_set d /\
+   snd (step w (SetDMX d)) =
+     hand_out (u_outs (w_u w)) (u_sinks (w_u w)) (dmx_set d) (u_prio (w_u w))).
+Proof.
+  unfold step. cbn [apply_update]. unfold set_dmx. split.
+  - intros ->. reflexivity.
+  - intros H. destruct (dmx_set d) as [|x r] eqn:E; [congruence|].
+    assert (len (x :: r) =? 0 = false) as -> by (rewrite len_cons; apply N.eqb_neq; lia).
+    cbn [fst snd with_u w_u set_merge u_buf]. split; reflexivity.
+Qed.
+
+(* ---- housekeeping (CleanStaleSourceClients) ---- *)
+Definition registered (c : N) (w : world) : Prop := exists b, In (c, b) (u_clients (w_u w)).
+Definition fresh (c : N) (w : world) : Prop := In (c, false) (u_clients (w_u w)).
+
+Lemma map_put_same c v l : In (c, v) (map_put c v l).
+Proof.
+  induction l as [|[x b] l IH]; cbn [map_put]; [now left|].
+  destruct (c <? x); [now left|]. destruct (c =? x) eqn:E.
+  - apply N.eqb_eq in E. subst. now left.
+  - right. exact IH.
+Qed.
+Lemma map_put_other c v l c' b' : c' <> c -> In (c', b') l -> In (c', b') (map_put c v l).
+Proof.
+  intros Hn. induction l as [|[x b] l IH]; cbn [map_put In]; [tauto|].
+  destruct (c <? x); [cbn [In]; tauto|]. destruct (c =? x) eqn:E.
+  - apply N.eqb_eq in E. subst x. cbn [In]. intros [H|H]; [inversion H; congruence|tauto].
+  - cbn [In]. intros [H|H]; [now left|right; auto].
+Qed.
+Lemma map_remove_other c l c' b' : c' <> c -> In (c', b') l -> In (c', b') (map_remove c l).
+Proof.
+  intros Hn H. unfold map_remove. apply filter_In. split; [exact H|].
+  cbn [fst]. apply negb_true_iff, N.eqb_neq. exact Hn.
+Qed.
+Lemma clean_stale_fresh c l : In (c, false) l -> In (c, true) (clean_stale l).
+Proof.
+  induction l as [|[x b] l IH]; cbn [clean_stale In]; [tauto|].
+  intros [H|H].
+  - inversion H; subst. now left.
+  - destruct b; [auto|right; auto].
+Qed.
+
+Definition evicts (c : N) (o : op) : Prop := o = CleanStale \/ o = RemoveSource c.
+
+(* a client update registers the client with a cleared mark *)
+Lemma client_update_fresh w o c now w1 :
+  apply_update w o = Some (Client c, now, w1) -> fresh c (fst (step w o)).
+Proof.
+  intros H. destruct (step_spec _ _ _ _ _ H) as (_ & _ & _ & _ & _ & Ec & _).
+  unfold fresh. rewrite Ec.
+  destruct o; cbn [apply_update] in H; try discriminate;
+    try (destruct (mem i (u_inputs (w_u w))); discriminate);
+    inversion H; subst; cbn [w_u with_u set_clients u_clients]; apply map_put_same.
+Qed.
+
+(* the client containers after one call, in terms of the call *)
+Lemma step_clients w o :
+  u_clients (w_u (fst (step w o))) =
+  match o with
+  | ClientData c _ _ _ _ | ClientChanged c _ | AddSource c => map_put c false (u_clients (w_u w))
+  | RemoveSource c => map_remove c (u_clients (w_u w))
+  | CleanStale => clean_stale (u_clients (w_u w))
+  | _ => u_clients (w_u w)
+  end.
+Proof.
+  destruct (apply_update w o) as [[[chg now] w1]|] eqn:A.
+  - destruct (step_spec _ _ _ _ _ A) as (_ & _ & _ & _ & _ & Ec & _). rewrite Ec.
+    destruct o; cbn [apply_update] in A; try discriminate;
+      try (destruct (mem i (u_inputs (w_u w))); [|discriminate]);
+      inversion A; subst; reflexivity.
+  - unfold step. rewrite A.
+    destruct o; cbn [apply_update] in A; try discriminate; cbn [fst admin_step]; try reflexivity;
+      try (destruct (SOURCE_PRIORITY_MAX <? _); reflexivity);
+      try (unfold set_dmx; destruct (len _ =? 0); reflexivity).
+Qed.
+
+Lemma step_keeps_fresh w o c : ~ evicts c o -> fresh c w -> fresh c (fst (step w o)).
+Proof.
+  unfold fresh, evicts. intros Hn H. rewrite step_clients.
+  destruct o; try exact H; try (exfalso; apply Hn; auto; fail).
+  - destruct (N.eq_dec c c0) as [->|Hc]; [apply map_put_same|apply map_put_other; assumption].
+  - destruct (N.eq_dec c c0) as [->|Hc]; [apply map_put_same|apply map_put_other; assumption].
+  - destruct (N.eq_dec c c0) as [->|Hc]; [apply map_put_same|apply map_put_other; assumption].
+  - apply map_remove_other; [|exact H]. intros ->. apply Hn. auto.
+Qed.
+Lemma step_keeps_registered w o c : ~ evicts c o -> registered c w -> registered c (fst (step w o)).
+Proof.
+  unfold registered, evicts. intros Hn [b H]. rewrite step_clients.
+  destruct o; try (exists b; exact H); try (exfalso; apply Hn; auto; fail).
+  - destruct (N.eq_dec c c0) as [->|Hc]; [exists false; apply map_put_same|exists b; apply map_put_other; assumption].
+  - destruct (N.eq_dec c c0) as [->|Hc]; [exists false; apply map_put_same|exists b; apply map_put_other; assumption].
+  - destruct (N.eq_dec c c0) as [->|Hc]; [exists false; apply map_put_same|exists b; apply map_put_other; assumption].
+  - exists b. apply map_remove_other; [|exact H]. intros ->. apply Hn. auto.
+Qed.
+Lemma clean_makes_registered w c : fresh c w -> registered c (fst (step w CleanStale)).
+Proof.
+  unfold fresh, registered. intros H. rewrite step_clients. exists true. apply clean_stale_fresh. exact H.
+Qed.
+
+Definition runs (w : world) (ops : list op) : world := fold_left (fun w o => fst (step w o)) ops w.
+
+Lemma runs_keeps_fresh c ops : forall w,
+  Forall (fun o => ~ evicts c o) ops -> fresh c w -> fresh c (runs w ops).
+Proof.
+  induction ops as [|o ops IH]; intros w Hf H; cbn [runs fold_left]; [exact H|].
+  inversion Hf; subst. apply IH; [assumption|]. apply step_keeps_fresh; assumption.
+Qed.
+Lemma runs_keeps_registered c ops : forall w,
+  Forall (fun o => ~ evicts c o) ops -> registered c w -> registered c (runs w ops).
+Proof.
+  induction ops as [|o ops IH]; intros w Hf H; cbn [runs fold_left]; [exact H|].
+  inversion Hf; subst. apply IH; [assumption|]. apply step_keeps_registered; assumption.
+Qed.
+Lemma runs_app w a b : runs w (a ++ b) = runs (runs w a) b.
+Proof. unfold runs. apply fold_left_app. Qed.
+
+(* The housekeeping contract: a client whose data arrived stays a candidate source through any later
+   calls that contain at most one housekeeping run and no explicit removal of that client. *)
+Lemma housekeeping_lemma w o c now w1 before after :
+  apply_update w o = Some (Client c, now, w1) ->
+  Forall (fun o => ~ evicts c o) before -> Forall (fun o => ~ evicts c o) after ->
+  let w_a := runs (fst (step w o)) before in
+  let w_b := runs (fst (step w o)) (before ++ CleanStale :: after) in
+  (In (Client c, w_csrc w_a c) (sources w_a)) /\ (In (Client c, w_csrc w_b c) (sources w_b)).
+Proof.
+  intros H Hb Ha. cbv zeta.
+  pose proof (client_update_fresh _ _ _ _ _ H) as F0.
+  pose proof (runs_keeps_fresh c before _ Hb F0) as F1.
+  assert (Hsrc : forall w', registered c w' -> In (Client c, w_csrc w' c) (sources w')).
+  { intros w' [b Hin]. unfold sources, client_sources. apply in_or_app. right.
+    apply in_map_iff. exists (c, b). split; [reflexivity|exact Hin]. }
+  split.
+  - apply Hsrc. exists false. exact F1.
+  - apply Hsrc. rewrite runs_app. cbn [runs fold_left]. fold (runs (fst (step (runs (fst (step w o)) before) CleanStale)) after).
+    apply runs_keeps_registered; [exact Ha|]. apply clean_makes_registered. exact F1.
+Qed.
+
 
 Lemma noninterference_lemma wa oa wa1 wb ob wb1 chg now :
   apply_update wa oa = Some (chg, now, wa1) ->
